@@ -469,6 +469,64 @@ theorem datagram_handling_total_partial (s : Store) (d : Bytes) (now : Nat) (ser
 
 /-! ### a concrete responder -/
 
+/-! ### 6. a reply that cannot be sent
+
+The reply to one datagram can be larger than any datagram (`answersFor` is evaluated per question and
+nothing removes repetitions: a query of a few hundred questions for one registered name asks for that
+many copies of its records), and a unicast destination can be unreachable. What the loop does with
+the failed `send_to` decides whether the service survives. Found by the audit of this file against
+`simple_responder.rs`; repaired in /repo by fix 4185208, replayed by the live runs of the C14 check. -/
+
+/-- a send is refused exactly when the environment refuses it or the payload exceeds 65 507 bytes -/
+theorem sendTo_false_iff (b : Bytes) (envOk : Bool) :
+    sendTo b envOk = false ↔ envOk = false ∨ udpMaxPayload < b.length := by
+  unfold sendTo
+  cases envOk <;> simp [Nat.not_le]
+
+/-- **With the policy of the code (log and go on) no datagram, no store, no clock value and no
+behaviour of the network ends or panics the responder's receive loop.** -/
+theorem responder_loop_survives (s : Store) (d : Bytes) (now : Nat) (envOk : Bool) :
+    ∃ sent, responderIteration responderSendPolicy s d now envOk = .ok (.continues sent) := by
+  obtain ⟨r, hr⟩ := (pipeline_total s d now [] []).1
+  unfold responderIteration responderSendPolicy
+  rw [hr]
+  cases r with
+  | none => exact ⟨none, rfl⟩
+  | some b =>
+    by_cases h : sendTo b envOk = true
+    · exact ⟨some b, by simp [h]⟩
+    · exact ⟨none, by simp [h]⟩
+
+/-- what is sent, when something is sent, is the reply of `handleResponder`, within the size a datagram
+can carry -/
+theorem responder_sends_reply {s : Store} {d : Bytes} {now : Nat} {envOk : Bool} {b : Bytes}
+    {pol : OnSendError}
+    (h : responderIteration pol s d now envOk = .ok (.continues (some b))) :
+    handleResponder s d now = .ok (some b) ∧ b.length ≤ udpMaxPayload := by
+  unfold responderIteration at h
+  split at h
+  · cases h
+  · cases h
+  · cases h
+  · rename_i b' hb
+    split at h
+    · rename_i hs
+      cases h
+      refine ⟨hb, ?_⟩
+      unfold sendTo at hs
+      simp at hs
+      exact hs.2
+    · cases pol <;> simp at h
+
+/-- **With `?` on the send (the code before the fix) every reply that cannot be sent ends the loop:**
+whenever the responder has something to answer and the send fails, the thread is gone. -/
+theorem responder_loop_propagate_ends {s : Store} {d : Bytes} {now : Nat} {envOk : Bool} {b : Bytes}
+    (hb : handleResponder s d now = .ok (some b)) (hs : sendTo b envOk = false) :
+    responderIteration .propagate s d now envOk = .ok .ends := by
+  unfold responderIteration
+  rw [hb]
+  simp [hs]
+
 namespace C14Ex
 
 def lbl : Label := [108, 111, 99, 97, 108]
@@ -533,6 +591,14 @@ example : ∃ p, Packet.parse rbytes = .ok p := by
 logged and nothing is sent; no panic -/
 example : buildReply (query [[108], lbl]) stBad 5 ≠ none ∧
     sendReply (buildReply (query [[108], lbl]) stBad 5) = .ok none := by decide +kernel
+
+/-- the hypotheses of `responder_loop_propagate_ends` are met: the query above, answered towards an
+unreachable destination, ended the loop of the code before the fix, and does not end the repaired one -/
+example : responderIteration .propagate st qbytes 5 false = .ok .ends ∧
+    responderIteration responderSendPolicy st qbytes 5 false = .ok (.continues none) ∧
+    responderIteration responderSendPolicy st qbytes 5 true = .ok (.continues (some rbytes)) := by
+  refine ⟨responder_loop_propagate_ends responder_reply rfl, ?_, ?_⟩ <;>
+    (unfold responderIteration; rw [responder_reply]; decide)
 
 /-- garbage is dropped by all three services -/
 example : handleResponder st [1, 2, 3] 0 = .ok none ∧ handleResolver [1, 2, 3] = .ok none ∧
